@@ -94,7 +94,7 @@ func corrSchemes(prop, outDir string, seed uint64, tier string) *report {
 		"Z * bytes * bytes * list Z * list kdf_entry * bytes * nres", "ok_newhash", 1200)
 	csC := newCaseSet(outDir, prop+"_check", []string{"GC.Schemes.Keys", "GC.Schemes.Checks", "GC.Schemes.SchemeCases", "GC.Codec.Types"},
 		"Z * bytes * bytes * list kdf_entry * bytes * verdict", "ok_check", 1200)
-	sink := &checkCaseSink{csC, rep}
+	sink := &checkCaseSink{cs: csC, rep: rep}
 	old := crand.Reader
 	defer func() { crand.Reader = old }()
 
